@@ -199,6 +199,21 @@ def run(ctx: Ctx) -> Result:
                         w = G.push(M) + bytes([N['WRITE_CACHE'], 9]) + b'sigfield1\x01' + honest
                         got = F.run_auth_scripts([w, lock], dict(cache))
                         if got is not True: report('honest signature after a witness wrote the bytes key b"sigfield1"', cache, [w, lock], True, got)
+            # what a successful signature / multisig check leaves in the cache has byte-string keys only, and a check a witness ran
+            # itself under a permissive allowance does not carry over to the lock's stricter one
+            cache = {'sigfield1': b'abc', 'sigfield2': b'de'}
+            s02 = sk.sign(b'abc').signature + b'\x02'          # valid over sigfield1 only (flag 02 excludes sigfield2)
+            for lockop, tail in ((N['CHECK_SIG'], b''), (N['CHECK_MULTISIG'], b'\x01\x01')):
+                permissive = G.push(s02) + G.push(pk) + bytes([lockop, 0xff]) + tail
+                strict = G.push(pk) + bytes([lockop, 0x00]) + tail
+                res.note_case(('memo', lockop))
+                try:
+                    _, st_, out = F.run_script(permissive, dict(cache))
+                    odd = [repr(k)[:60] for k in out if not isinstance(k, (bytes, str))] + [k for k in out if isinstance(k, str) and k not in cache and k != 'timestamp']
+                    if odd: report('keys a successful check added to the cache', cache, [permissive], 'byte-string keys only', odd)
+                except BaseException as e: report('a permitted flagged signature is checked', cache, [permissive], 'runs', type(e).__name__)
+                got = F.run_auth_scripts([permissive + bytes([N['POP0']]) + G.push(s02), strict], dict(cache))
+                if got is not False: report('a signature flagged 02, first checked by the witness itself under allowance ff, then by the lock under allowance 00', cache, [permissive + bytes([N['POP0']]) + G.push(s02), strict], False, got)
             for name, val in (('timestamp', vmrun.NOW), ('sigfield3', b'embedder'), ('input_ts', 1700000000), ('note', 'text'), ('amount', 2.5)):
                 cache = {name: val}
                 probe = bytes([N['GET_VALUE'], len(name)]) + name.encode()
